@@ -65,7 +65,14 @@ func raceCheck(r *evid.Run, reqs []wproto.Req) {
 				// the access itself (first frame) must be in gtree: a race between two harness accesses
 				// (e.g. a callback arriving after a cancelled call returned) is not gtree's
 				lines := strings.Split(part, "\n")
-				if len(lines) < 2 || !strings.HasPrefix(lines[1], "  github.com/ddddddO/gtree") {
+				first := ""
+				for i, l := range lines {
+					if (strings.Contains(l, "rite at 0x") || strings.Contains(l, "ead at 0x")) && i+1 < len(lines) {
+						first = lines[i+1]
+						break
+					}
+				}
+				if !strings.HasPrefix(first, "  github.com/ddddddO/gtree") {
 					sites = nil
 					break
 				}
@@ -123,7 +130,20 @@ func raceRequests(thorough bool) []wproto.Req {
 					rq.Yield = 1
 				}
 				reqs = append(reqs, rq)
+				if rq.Op == "output" && rq.Massive {
+					// a writer that starts failing in the middle while other roots are still in flight
+					wq := rq
+					wq.CancelAt, wq.Yield = nil, 0
+					wq.WFault = &wproto.WFault{How: "fail", At: 3 + 2*k}
+					reqs = append(reqs, wq)
+				}
 			}
+		}
+	}
+	// the text spreader under a writer that starts failing at various points while many roots are in flight
+	for rep := 0; rep < 3*n; rep++ {
+		for _, at := range []int{1, 2, 3, 5, 8, 13, 21, 40, 80} {
+			reqs = append(reqs, wproto.Req{Op: "output", Massive: true, Doc: plain.String(), Procs: []int{4, 16, 8}[rep%3], WFault: &wproto.WFault{How: []string{"fail", "fail-once", "short"}[rep%3], At: at}})
 		}
 	}
 	return reqs
